@@ -182,6 +182,113 @@ Proof.
     [symmetry; apply H1; reflexivity|apply H2; reflexivity].
 Qed.
 
+(* ---- a text used as an iterable: iter(t) gives its characters one by one, like a str *)
+Lemma py_index_mid {A} (pre : list A) x suf : py_index (pre ++ x :: suf) (zlen pre) = Ok x.
+Proof.
+  pose proof (zlen_nonneg pre) as Hn.
+  assert (zlen pre <? 0 = false) as E by (apply Z.ltb_ge; lia).
+  unfold py_index. cbv zeta. rewrite E. cbv iota. rewrite E.
+  unfold zlen. rewrite Nat2Z.id, nth_error_app2 by lia. rewrite Nat.sub_diag. reflexivity.
+Qed.
+Lemma py_index_end {A} (l : list A) : py_index l (zlen l) = Err IndexErr.
+Proof.
+  pose proof (zlen_nonneg l) as Hn.
+  assert (zlen l <? 0 = false) as E by (apply Z.ltb_ge; lia).
+  unfold py_index. cbv zeta. rewrite E. cbv iota. rewrite E.
+  unfold zlen. rewrite Nat2Z.id.
+  replace (nth_error l (length l)) with (@None A); [reflexivity|].
+  symmetry. apply nth_error_None. lia.
+Qed.
+
+Lemma cchars_cc_text x : cchars (cc_text x) = [x].
+Proof. destruct x as [ch [p s]]. reflexivity. Qed.
+
+Lemma single_good t x : good sfx t -> cchars t = [x] -> t = cc_text x.
+Proof.
+  intros [[Hc Hn] _] E. destruct t as [n cs]. cbn [chunks scrlen] in *. unfold cc_text. f_equal.
+  - rewrite Hn, E. reflexivity.
+  - apply canon_unique; [exact Hc|cbn; repeat split; discriminate|].
+    change (cchars_l cs) with (cchars (CHText n cs)). rewrite E. destruct x as [ch [p s]]. reflexivity.
+Qed.
+
+Lemma cc_text_good x : wfc sfx (cc_chunk x) -> good sfx (cc_text x).
+Proof.
+  intros Hw. destruct x as [ch [p s]].
+  split; [split; [cbn; repeat split; discriminate|reflexivity]|constructor; [exact Hw|constructor]].
+Qed.
+
+Lemma iter_loop_ok t : good sfx t -> forall suf pre fuel, cchars t = pre ++ suf -> (length suf < fuel)%nat ->
+  iter_loop fuel t (zlen pre) = Ok (map cc_text suf).
+Proof.
+  intros Hg. induction suf as [|x suf IH]; intros pre fuel E Hf; (destruct fuel as [|f]; [cbn [length] in Hf; lia|]);
+    cbn [iter_loop]; pose proof (text_index_refines sfx t (zlen pre) Hg) as Hi; rewrite E in Hi.
+  - rewrite app_nil_r, py_index_end in Hi. cbv beta iota in Hi. destruct Hi as [Hi _]. rewrite Hi. reflexivity.
+  - rewrite py_index_mid in Hi. cbv beta iota in Hi. destruct Hi as (t' & Hi & Hg' & Hc'). rewrite Hi.
+    rewrite (single_good t' x Hg' Hc').
+    replace (zlen pre + 1) with (zlen (pre ++ [x])) by (rewrite zlen_app, zlen_cons, zlen_nil; lia).
+    rewrite (IH (pre ++ [x]) f); [reflexivity|rewrite <- app_assoc; exact E|cbn [length] in Hf; lia].
+Qed.
+
+Lemma text_items_ok t l : P t l -> text_items t = Ok (map cc_text l).
+Proof.
+  intros [Hg <-]. unfold text_items. change 0 with (zlen (@nil cchar)).
+  apply (iter_loop_ok t Hg (cchars t) []); [reflexivity|].
+  rewrite <- visible_cchars. unfold visible. rewrite map_length. lia.
+Qed.
+
+Lemma rev_loop_ok t : good sfx t -> forall k, (k <= length (cchars t))%nat ->
+  rev_loop k t = Ok (map cc_text (rev (firstn k (cchars t)))).
+Proof.
+  intros Hg. induction k as [|k IH]; intros Hk; cbn [rev_loop]; [reflexivity|].
+  destruct (nth_error (cchars t) k) as [x|] eqn:Ex; [|apply nth_error_None in Ex; lia].
+  apply nth_error_split in Ex. destruct Ex as (pre & suf & El & Elen). subst k.
+  pose proof (text_index_refines sfx t (zlen pre) Hg) as Hi. rewrite El, py_index_mid in Hi.
+  cbv beta iota in Hi. destruct Hi as (t' & Hi & Hg' & Hc').
+  change (Z.of_nat (length pre)) with (zlen pre). rewrite Hi, IH by lia. cbn [bind].
+  rewrite (single_good t' x Hg' Hc'), El.
+  assert (firstn (length pre) (pre ++ x :: suf) = pre) as F1.
+  { rewrite <- (Nat.add_0_r (length pre)), firstn_app_2. cbn [firstn]. apply app_nil_r. }
+  assert (firstn (S (length pre)) (pre ++ x :: suf) = pre ++ [x]) as F2.
+  { replace (S (length pre)) with (length pre + 1)%nat by lia. rewrite firstn_app_2. reflexivity. }
+  rewrite F1, F2, rev_app_distr. reflexivity.
+Qed.
+
+Lemma text_rev_items_ok t l : P t l -> text_rev_items t = Ok (map cc_text (rev l)).
+Proof.
+  intros [Hg <-]. unfold text_rev_items. pose proof Hg as [[_ Hn] _]. rewrite Hn. unfold zlen.
+  rewrite Nat2Z.id, (rev_loop_ok t Hg) by lia. rewrite firstn_all. reflexivity.
+Qed.
+
+Lemma cc_chunk_wf cs : wf_l sfx cs -> Forall (fun x => wfc sfx (cc_chunk x)) (cchars_l cs).
+Proof.
+  induction 1 as [|c cs Hc _ IH]; [constructor|]. rewrite cchars_l_cons. apply Forall_app. split; [|exact IH].
+  unfold ccs. apply Forall_forall. intros x Hx. apply in_map_iff in Hx. destruct Hx as (ch & <- & _). exact Hc.
+Qed.
+
+Lemma iter_parts_sim st sst it : R st sst -> iter_ok sfx it ->
+  iter_parts (vars st) (heap st) it = Ok (s_iter_parts (svars sst) (sheap sst) it) /\
+  Forall (part_ok sfx) (s_iter_parts (svars sst) (sheap sst) it).
+Proof.
+  intros [Hv H] Hok. destruct it as [v|c|s]; cbn [iter_parts s_iter_parts].
+  - pose proof (get_P _ _ H (var_id (vars st) v)) as HP. rewrite <- Hv.
+    rewrite (text_items_ok _ _ HP). cbn [bind]. split.
+    + f_equal. rewrite map_map. apply map_ext. intros x. reflexivity.
+    + destruct HP as [[_ Hw] <-]. pose proof (cc_chunk_wf _ Hw) as HF. rewrite Forall_forall in HF.
+      apply Forall_forall. intros p Hp. apply in_map_iff in Hp. destruct Hp as (x & <- & Hx).
+      split; [apply HF; exact Hx|exact I].
+  - split; [reflexivity|]. unfold chunk_items. rewrite map_map.
+    apply Forall_forall. intros p Hp. apply in_map_iff in Hp. destruct Hp as (ch & <- & _). exact Hok.
+  - split; [reflexivity|].
+    apply Forall_forall. intros p Hp. apply in_map_iff in Hp. destruct Hp as (ch & <- & _). exact I.
+Qed.
+
+Lemma existsb_map_ext {A B} (f : B -> bool) (g : A -> B) (k : A -> bool) l :
+  (forall x, In x l -> f (g x) = k x) -> existsb f (map g l) = existsb k l.
+Proof.
+  induction l as [|x l IH]; intros Hx; cbn [map existsb]; [reflexivity|].
+  rewrite Hx by (left; reflexivity). rewrite IH; [reflexivity|]. intros y Hy. apply Hx. right. exact Hy.
+Qed.
+
 Lemma stmt_sim st sst s : R st sst -> stmt_ok sfx s -> RR s (exec_stmt st s) (sexec_stmt sst s).
 Proof.
   intros HR Hok. pose proof HR as [Hv H]. unfold RR.
@@ -271,6 +378,26 @@ Proof.
   - (* OChunkSlice *) cbn [fst snd]. split; [exact HR|reflexivity].
   - (* OChunkEq *) cbn [fst snd]. split; [exact HR|reflexivity].
   - (* OChunkFormat *) cbn [fst snd]. split; [exact HR|reflexivity].
+  - (* SJoinIt *)
+    destruct (iter_parts_sim st sst it HR Hok) as [E HF]. rewrite E. cbn [bind].
+    apply join_sim; [exact HR|apply Hobj|exact HF].
+  - (* SChunkJoinIt *)
+    destruct Hok as [Hc Hit]. destruct (iter_parts_sim st sst it HR Hit) as [E HF]. rewrite E. cbn [bind].
+    apply join_sim; [exact HR| |exact HF].
+    change (ccs c) with ([] ++ ccs c). apply P_append; [apply P_empty|exact Hc].
+  - (* OIter *) cbn [fst snd]. split; [exact HR|]. rewrite (text_items_ok _ _ (Hobj a)). reflexivity.
+  - (* ORevIter *) cbn [fst snd]. split; [exact HR|]. rewrite (text_rev_items_ok _ _ (Hobj a)). reflexivity.
+  - (* OIn *)
+    cbn [fst snd]. split; [exact HR|]. rewrite (text_items_ok _ _ (Hobj a)). cbn [bind]. do 3 f_equal.
+    destruct (Hobj a) as [[_ Hw] Hc]. pose proof (cc_chunk_wf _ Hw) as HF. rewrite Forall_forall in HF.
+    fold (cchars (hget (heap st) (var_id (vars st) a))) in HF. rewrite Hc in HF.
+    apply existsb_map_ext. intros x Hx. pose proof (cc_text_good x (HF x Hx)) as Hgx.
+    destruct p as [s|c|v| |y r]; cbn [item_eq]; try reflexivity; apply bool_eq_iff.
+    + rewrite (text_eq_str_iff sfx _ s sfx_nil Hgx), cc_eqb_eq, cchars_cc_text. reflexivity.
+    + destruct Hgx as [Hi _]. rewrite (text_eq_chunk_iff _ c Hi), cc_eqb_eq, cchars_cc_text. reflexivity.
+    + destruct (Hobj v) as [[Hiv _] Hcv]. destruct Hgx as [Hi _].
+      rewrite (text_eq_text_iff _ _ Hi Hiv), cc_eqb_eq, cchars_cc_text, Hcv. reflexivity.
+  - (* OChunkIter *) cbn [fst snd]. split; [exact HR|reflexivity].
 Qed.
 
 Fixpoint erase_all (prog : list stmt) (obs : list sx) : list sx :=
